@@ -9,6 +9,7 @@ import (
 	"runtime"
 	"strings"
 	"sync"
+	"sync/atomic"
 	"time"
 
 	"github.com/biogo/hts/bgzf"
@@ -350,7 +351,7 @@ func c01one(c *Ctx, cas wcase, rds []int) {
 }
 
 func c01scripts(c *Ctx) {
-	c.Rule = "scripts over {W(len in 0,1,2,BS-1,BS,BS+1,2BS,2BS+3), Flush, Wait} of length <=2 (quick) / <=3 (thorough, at the corner configurations) followed by Close x content {compressible position-coded, incompressible} x level {-1,0,1,9} (thorough -1..9) x wc {0,1,2,3} x rd {0,1,2,3} x read plan {ReadAll, ReadByte only, cyclic buffer sizes 1/7/BS-1/BS/BS+1/3BS, alternating Read(5)/ReadByte}; default (free-running) schedule on the uninstrumented library; oracle: bytes read == bytes written, then io.EOF; no error, panic or stall. Non-trivial: distinct (script, content, level, wc) writing at least one byte."
+	c.Rule = "scripts over {W(len in 0,1,2,BS-1,BS,BS+1,2BS,2BS+3), Flush, Wait} of length <=2 (quick) / <=3 (thorough, at the corner configurations) followed by Close x content {compressible position-coded, incompressible} x level {-1,0,1,9} (thorough -1..9) x wc {0,1,2,3} x rd {0,1,2,3} x read plan {ReadAll, ReadByte only, cyclic buffer sizes 1/7/BS-1/BS/BS+1/3BS, alternating Read(5)/ReadByte}; default (free-running) schedule on the uninstrumented library; oracle: bytes read == bytes written, then io.EOF; no error, panic or stall; plus a full incompressible block with a gzip Name swept across the 64 KiB member limit at levels 0, 1, -1 (the writer refuses, or the output reads back exactly; the largest member read back is reported). Non-trivial: distinct (script, content, level, wc) writing at least one byte."
 	c.Assume("the schedule dimension is covered by the C01 'sched' part; here goroutines run free")
 	if c.Replay != nil {
 		var cas wcase
@@ -406,6 +407,53 @@ func c01scripts(c *Ctx) {
 		mu.Unlock()
 	})
 	c.AddExtra("writer_runs", int64(len(cases)))
+	// members at the size limit: a full incompressible block with a gzip Name whose length is
+	// swept across the point where the member no longer fits in 64 KiB. Either the writer
+	// refuses (an error, nothing to read back) or what it wrote reads back exactly.
+	var limit []wcase
+	for _, lv := range []int{0, 1, -1} {
+		for nl := 150; nl <= 300; nl++ {
+			if !c.Thorough && (nl < 200 || nl > 240) {
+				continue
+			}
+			limit = append(limit, wcase{Script: "W65280", Ops: []sop{{Op: "W", N: BS}}, Rand: true, Level: lv, WC: 1, Close: true, Hdr: &hdrSetting{NameLen: nl, OS: 255}})
+		}
+	}
+	var maxMember int64
+	parallel(len(limit), func(i int) {
+		cas := limit[i]
+		res, ok := runWriter(c, cas)
+		c.Eval(1)
+		if !ok || res.opErr != nil || res.closeErr != nil {
+			return
+		}
+		if ms, _, err := refimpl.ParseStream(res.out); err == nil {
+			for _, m := range ms {
+				for {
+					old := atomic.LoadInt64(&maxMember)
+					if int64(m.Size) <= old || atomic.CompareAndSwapInt64(&maxMember, old, int64(m.Size)) {
+						break
+					}
+				}
+			}
+		}
+		for _, rd := range []int{1, 2} {
+			rc := cas
+			rc.RD, rc.Plan = rd, "readall"
+			got, err, ok := readBack(c, rc, res.out)
+			c.Eval(1)
+			if !ok {
+				continue
+			}
+			if !bytes.Equal(got, res.written) || err != io.EOF {
+				c.Violate("roundtrip:member-at-size-limit", fmt.Sprintf("level %d, Name of %d bytes: the writer reported no error but reading back gives %d of %d bytes, first difference at %d, final error %v", cas.Level, cas.Hdr.NameLen, len(got), len(res.written), firstDiff(got, res.written), err), rc)
+				return
+			}
+		}
+		c.Nontrivial("limit", cas.Level, cas.Hdr.NameLen)
+	})
+	c.AddExtra("size_limit_runs", int64(len(limit)))
+	c.AddExtra("largest_member_written_and_read_back", maxMember)
 }
 
 // ---------------------------------------------------------------------------------------------
